@@ -1195,6 +1195,15 @@ Lemma ti_sticky_offset_witness :
             ti_draw m 80 = DrawDone 15 (Some 5).
 Proof. vm_compute. eexists; repeat split; reflexivity. Qed.
 
+(* the scroll margin applies even with the cursor at the end of the text: 7 narrow
+   characters in a 10-column window fit, yet the widget scrolls *)
+Lemma ti_scroll_margin_witness :
+  let chars := chars_tab demo_alpha in
+  exists m, ti_run chars demo_alnum (ti_new []) [OEv (EDefault false (repeat 97 7))] = Some m /\
+            ti_offset m = 0 /\ ti_cursor m = 7 /\ cl_width (ti_content m) = 7 /\
+            ti_draw m 10 = DrawDone 2 (Some 5).
+Proof. vm_compute. eexists; repeat split; reflexivity. Qed.
+
 (* ================================================================== readings used by props/C17.v *)
 
 Corollary ti_refines_ideal chars alnum A :
